@@ -157,7 +157,7 @@ def run_inproc(spec, args, disk=False, found_suites='auto', cwd=None, script_par
             tracer = runtime.Tracer(trace_path)
             os.environ['ZTV_SPEC'] = spec_path
             os.environ['ZTV_TRACE'] = trace_path
-            argv[1:1] = ['--path', src, '--tests-pattern', '^%st_' % spec['mp']]
+            argv[1:1] = ['--path', src, '--tests-pattern', '^%st_' % spec['mp']] + runtime.package_path_args(spec, src)
             run.workdir = workdir
             run.src = src
             suites = None
@@ -256,7 +256,8 @@ class World:
         shutil.rmtree(self.dir, ignore_errors=True)
 
     def base_args(self):
-        return ['--path', self.src, '--tests-pattern', '^%st_' % self.spec['mp']]
+        return (['--path', self.src, '--tests-pattern', '^%st_' % self.spec['mp']]
+                + runtime.package_path_args(self.spec, self.src))
 
     def run(self, args, timeout=120, env=None, control=None, cwd=None, stdin=None, python=None,
             base_args=True):
